@@ -99,6 +99,8 @@ def load_cms():
     npm.zeros = lambda shape, dtype=None: Mat(*shape)
     npm.array = lambda x, dtype=None: x
     npm.arange = xnp.arange
+    npm.int64 = lambda x: x
+    npm.fromiter = lambda it, dtype=None, count=-1: xnp.Arr(list(it), 'int64')
     npm.random = types.SimpleNamespace(randint=lambda **k: [0] * k['size'])
     ns = loader.load('outrank/algorithms/sketches/counting_cms.py', shims={'numpy': npm, 'numba': loader.numba_stub()},
                      extra={'hash': lambda it: it.h, 'isinstance': _isinstance, 'int': _int}, record=['cms_hash', 'CountMinSketch', 'CountMinSketch._add', 'CountMinSketch.add', 'CountMinSketch.batch_add', 'CountMinSketch.query'])
@@ -162,9 +164,11 @@ def run_cms(job):
         for v in st['wt']:
             ctx.assume(v >= 0, v <= WMAX)
 
+    PAIR = d == 1 or w <= 2      # odd steps add a batch of TWO items where the solver copes with it (the cells are sums of ite-chains mod width)
+
     def wit(m):
         g = lambda v: m.eval(v, model_completion=True).as_long()
-        return {'cond': 'cms', 'd': d, 'w': w, 'ints': bool(job.get('ints')), 'hash': [g(v) for v in st['h']], 'seeds': [g(v) for v in st['seed']],
+        return {'cond': 'cms', 'd': d, 'w': w, 'pair': PAIR, 'ints': bool(job.get('ints')), 'hash': [g(v) for v in st['h']], 'seeds': [g(v) for v in st['seed']],
                 'stream': [[g(i), g(x)] for i, x in zip(st['idx'], st['wt'])]}
 
     def body(ctx, out):
@@ -181,15 +185,21 @@ def run_cms(job):
             it = mk(hk)
             if k % 2 == 0:
                 o.add(it, SInt(st['wt'][k], 0, WMAX))
-            else:
+            elif not PAIR:
                 o.batch_add([it], SInt(st['wt'][k], 0, WMAX))
-            total = z3.Sum([st['wt'][t] for t in range(k + 1)])
+            else:
+                # a batch of two items (this step's and the previous step's - possibly the same item, possibly colliding ones): each gets the weight
+                hp = st['h'][NITEMS - 1]
+                for j in range(NITEMS - 2, -1, -1):
+                    hp = z3.If(st['idx'][k - 1] == j, st['h'][j], hp)
+                o.batch_add([it, mk(hp)], SInt(st['wt'][k], 0, WMAX))
+            total = z3.Sum([st['wt'][t] * (2 if (t % 2 and PAIR) else 1) for t in range(k + 1)])
             bad = []
             for i in range(d):
                 bad.append(z3.Sum([symx.zint(c) for c in o.M.rows[i].data]) != total)
             out.never(ctx, z3.Or(bad), wit, f'a sketch row does not sum to the total weight after {k + 1} updates')
             for j in range(NITEMS):
-                true_w = z3.Sum([z3.If(st['idx'][t] == j, st['wt'][t], 0) for t in range(k + 1)])
+                true_w = z3.Sum([z3.If(st['idx'][t] == j, st['wt'][t], 0) + (z3.If(st['idx'][t - 1] == j, st['wt'][t], 0) if (t % 2 and PAIR) else 0) for t in range(k + 1)])
                 # query forks on the row-wise minimum; run it on a snapshot of the path
                 q = o.query(items[j])
                 qe = symx.zint(q)
@@ -315,8 +325,13 @@ def replay(w):
     for k, (i, wt) in enumerate(w['stream']):
         if k % 2 == 0:
             cms.add(items[i], wt)
-        else:
+        elif not w.get('pair'):
             cms.batch_add([items[i]], wt)
+        else:
+            prev = items[w['stream'][k - 1][0]]
+            cms.batch_add([items[i], prev], wt)
+            true[prev] += wt
+            total += wt
         true[items[i]] += wt
         total += wt
         rows = [int(r.sum()) for r in cms.M]
